@@ -1875,6 +1875,125 @@ fn metadata_side_channels(g: &mut G, thorough: bool) {
 	}
 }
 
+/// tile names whose numbers sit at the borders of the level and of the integer types:
+/// z in {0,5,31,32,255,256}, x / y in {2^z-1, 2^z, 2^32-1, 2^32, 2^64, 99999999999999999999, -1, +1, 007}
+/// - alone (the first coordinate a reader sees), before and after a well-formed tile; tar and directory
+fn coord_name_family(g: &mut G) {
+	let zs: &[&str] = &["0", "5", "31", "32", "255", "256", "-1", "+5", "05"];
+	let probes = "0/0/0,5/31/31,5/32/0,31/2147483647/2147483647,31/4294967295/0,1/0/0";
+	for zt in zs {
+		let z: i64 = zt.parse().unwrap_or(0);
+		let mut nums: Vec<String> = NUM_BORDERS.iter().map(|s| s.to_string()).collect();
+		if (0..=40).contains(&z) {
+			nums.push(((1u64 << z) - 1).to_string());
+			nums.push((1u64 << z).to_string());
+			nums.push(((1u64 << z) + 1).to_string());
+		}
+		for n in &nums {
+			for (x, y) in [(n.as_str(), "0"), ("0", n.as_str()), (n.as_str(), n.as_str())] {
+				let name = format!("{zt}/{x}/{y}.png");
+				let odd = ifm::TarMember::file(&name, b"ODD!");
+				let good = ifm::TarMember::file("1/0/0.png", b"GOOD");
+				for members in [vec![odd.clone()], vec![odd.clone(), good.clone()], vec![good.clone(), odd.clone()]] {
+					if let Ok(t) = ifm::encode_tar(&members, 0) {
+						g.push("tar", "coordinate-names", t.clone(), probes);
+						g.push("dir", "coordinate-names", t, probes);
+					}
+				}
+			}
+		}
+	}
+}
+
+/// textual / numeric fields at the borders of the level and of the integer types - used for EVERY
+/// place where a reader turns text or a stored number into a coordinate, zoom or count
+pub const NUM_BORDERS: &[&str] = &[
+	"0", "1", "30", "31", "32", "33", "255", "256", "65535", "65536", "2147483647", "2147483648", "4294967294", "4294967295", "4294967296", "9223372036854775807", "9223372036854775808", "18446744073709551615",
+	"18446744073709551616", "99999999999999999999", "-1", "-0", "+1", "007", "1.0", "1e3", "-2147483649",
+];
+
+fn number_borders(g: &mut G, dir: &std::path::Path) {
+	for n in NUM_BORDERS {
+		// TileJSON keys that are numbers / number lists
+		for doc in [format!("{{\"minzoom\":{n}}}"), format!("{{\"maxzoom\":{n}}}"), format!("{{\"minzoom\":{n},\"maxzoom\":0}}"), format!("{{\"bounds\":[{n},{n},{n},{n}]}}"), format!("{{\"center\":[{n},{n},{n}]}}"), format!("{{\"center\":[0,0,{n}]}}"), format!("{{\"fillzoom\":{n}}}"), format!("{{\"vector_layers\":[{{\"id\":\"a\",\"fields\":{{}},\"minzoom\":{n},\"maxzoom\":{n}}}]}}")] {
+			// (signs and leading zeros are not JSON numbers: those documents must simply be errors)
+			g.push("tilejson", "number-borders", doc.clone().into_bytes(), "");
+			g.push("json", "number-borders", doc.into_bytes(), "");
+		}
+		// VPL arguments that are parsed as numbers when the pipeline is built
+		for t in [
+			format!("from_container filename=a.pbf | filter_zoom min={n} max={n}"),
+			format!("from_container filename=a.pbf | filter_zoom min=\"{n}\""),
+			format!("from_container filename=a.pbf | filter_bbox bbox=[{n},{n},{n},{n}]"),
+			format!("from_container filename=a.pbf | filter_bbox bbox=[0,0,{n},1]"),
+			format!("from_debug format=pbf | filter_zoom max={n}"),
+		] {
+			g.push("build", "number-borders", t.clone().into_bytes(), "");
+			g.push("vpl", "number-borders", t.into_bytes(), "");
+		}
+		// CSV cells (turned into values by GeoValue::parse_str when the pipeline is built)
+		g.push("buildcsv", "number-borders", format!("id,n\n{n},{n}\n-{n},{n}.{n}\n").into_bytes(), "");
+	}
+	// versatiles block coordinates at the border of the level: block x = 2^z / 256 - 1, 2^z / 256, +1
+	let blockdef = |z: u8, x: u32, y: u32, o: u64, tl: u64, il: u32| {
+		let mut v = vec![z];
+		v.extend(x.to_be_bytes());
+		v.extend(y.to_be_bytes());
+		v.extend([0u8, 0, 1, 1]);
+		v.extend(o.to_be_bytes());
+		v.extend(tl.to_be_bytes());
+		v.extend(il.to_be_bytes());
+		v
+	};
+	let mut ti = vec![];
+	for (o, l) in [(0u64, 4u32), (4, 4), (8, 4), (12, 4)] {
+		ti.extend(o.to_be_bytes());
+		ti.extend(l.to_be_bytes());
+	}
+	for z in [0u8, 1, 8, 9, 16, 30, 31] {
+		let nb = if z >= 8 { 1u64 << (z - 8) } else { 1 };
+		for bx in [nb.saturating_sub(1), nb, nb + 1, (1u64 << 24) - 1, 1 << 24, u32::MAX as u64] {
+			for (x, y) in [(bx as u32, 0u32), (0, bx as u32), (bx as u32, bx as u32)] {
+				let f = vt_custom(b"{}", |o, tl, il| blockdef(z, x, y, o, tl, il), &ti, b"AAAABBBBCCCCDDDD");
+				let probes = format!("{z}/{}/{},{z}/0/0,0/0/0", (x as u64 * 256).min(u32::MAX as u64), (y as u64 * 256).min(u32::MAX as u64));
+				g.push("vt", "number-borders", f, &probes);
+			}
+		}
+	}
+	// MBTiles rows and zoom metadata
+	std::fs::create_dir_all(dir).unwrap();
+	let mut tiles = ifm::TileMap::new();
+	tiles.insert((1, 0, 0), b"AAAA".to_vec());
+	let ch = ifm::MbChoices { fmt: ifm::Fmt::Png, as_view: false, with_index: true, extra_meta: vec![], shuffle_rows: false };
+	let p = dir.join("borders-base.mbtiles");
+	let mut r2 = g.rng.fork();
+	if ifm::encode_mbtiles(&p, &ifm::tiles_to_rows(&tiles), &ch, &mut r2).is_err() {
+		return;
+	}
+	let Ok(base) = std::fs::read(&p) else { return };
+	let _ = std::fs::remove_file(&p);
+	let probes = "1/0/0,0/0/0,5/31/31,31/2147483647/2147483647,31/4294967295/0";
+	for (i, n) in NUM_BORDERS.iter().enumerate() {
+		// SQLite turns an integer literal beyond i64 into a REAL, and 'text' stays TEXT: both are wanted
+		let lit = if n.starts_with('+') || n.starts_with("00") { format!("'{n}'") } else { n.to_string() };
+		let z = ["0", "5", "31"][i % 3];
+		let mut sqls = vec![
+			format!("INSERT INTO tiles VALUES ({z}, {lit}, 0, x'01');"),
+			format!("DELETE FROM tiles; INSERT INTO tiles VALUES ({z}, 0, {lit}, x'01');"),
+			format!("DELETE FROM tiles; INSERT INTO tiles VALUES ({lit}, {lit}, {lit}, x'01');"),
+			format!("INSERT INTO metadata VALUES ('minzoom', '{n}'); INSERT INTO metadata VALUES ('maxzoom', '{n}');"),
+		];
+		if i % 4 == 0 {
+			sqls.push(format!("DELETE FROM tiles; INSERT INTO tiles VALUES ({lit}, 0, 0, x'01');"));
+		}
+		for sql in sqls {
+			if let Some(v) = sqlite_variant(dir, &base, &sql) {
+				g.push("mb", "number-borders", v, probes);
+			}
+		}
+	}
+}
+
 pub fn generate(args: &Args) -> Vec<Case> {
 	let mut g = G { rng: Rng::new(args.seed), cases: vec![] };
 	let thorough = args.thorough();
@@ -1899,8 +2018,10 @@ pub fn generate(args: &Args) -> Vec<Case> {
 	mb_cases(&mut g, &scratch, args.n(100, 1500));
 	after_open(&mut g, &scratch);
 	mb_metadata(&mut g, &scratch, thorough);
+	number_borders(&mut g, &scratch);
 	let _ = std::fs::remove_dir_all(&scratch);
 	tar_cases(&mut g, args.n(300, 6000));
+	coord_name_family(&mut g);
 	// every vector tile that is generated for `from_blob` also goes through the later decoding stages
 	let extra: Vec<Case> = g
 		.cases
